@@ -393,9 +393,14 @@ CFG_TRUE = ('feature = "instructions"', 'feature = "step_trait"', 'target_arch =
 # ---------------------------------------------------------------------------
 
 class Weaver:
-    def __init__(self, repo, spec_files, prelude, mode):
+    def __init__(self, repo, spec_files, prelude, mode, degraded=None):
         self.repo = repo
         self.mode = mode  # 'A' or 'B'
+        # (file, normalised impl header, fn name) -> reason. A function whose text can no longer be brought
+        # into Verus's reach (a mandatory rewrite lost its anchor, or Verus rejected the file at a span inside
+        # it) is woven signature + contract only (external_body); its obligations are reported undecided and
+        # every OTHER function is still verified (against this function's contract, as always).
+        self.degraded = degraded if degraded is not None else {}
         self.srcs = {}
         self.out = []      # list of (text, origin)
         self.funcs = []    # metadata per woven fn
@@ -542,7 +547,19 @@ class Weaver:
         if it['only'] and it['only'] != ('A' if self.mode == 'P' else self.mode):
             return
         s = self.src(it['file'])
-        r = s.find_fn(it['header'], it['name'])
+        try:
+            r = s.find_fn(it['header'], it['name'])
+        except ExtractError as e:
+            # the function is no longer where the contract says (renamed, moved behind a macro, removed): nothing is
+            # emitted for it and its obligations are undecided; everything else is still verified. If woven code
+            # calls it, Verus rejects those callers and e2.run degrades them too.
+            dkey = (it['file'], norm(it['header'] or ''), it['name'])
+            self.degraded[dkey] = 'lost anchor: %s' % e
+            self.funcs.append(dict(kind='fn', name=(it['rename'] or it['name']), header=it['as_header'] or it['header'], file=it['file'],
+                                   probe_idx=None, lines=[0, 0], sha256='', obligations=it['obligations'], rewrites=[], mode=self.mode,
+                                   degraded=self.degraded[dkey], missing=True, orig_header=it['header'], orig_name=it['name'],
+                                   spec=os.path.basename(it['spec']), spec_section='-', n_clauses=0))
+            return
         # cfg evaluation (R1): every cfg on the fn or impl must be in the true set
         for a in r['attrs'] + r.get('impl_attrs', []):
             mm = re.match(r'#\[cfg\((.*)\)\]$', a.strip(), re.S)
@@ -553,6 +570,8 @@ class Weaver:
                     raise SpecError('%s: cfg `%s` on %s is not in the evaluated-true set' % (it['file'], cond, it['name']))
         text = r['text']
         log = []
+        dkey = (it['file'], norm(it['header'] or ''), it['name'])
+        forced = self.degraded.get(dkey)
         for sub in it['subs']:
             pat, rep = sub[0], sub[1]
             optional = len(sub) > 2 and sub[2]
@@ -561,9 +580,18 @@ class Weaver:
                 if optional:
                     log.append('optional sub /%s/ did not match (code changed); woven without it' % pat)
                     continue
-                raise ExtractError('%s: sub /%s/ matched nothing in %s (lost anchor)' % (it['file'], pat, it['name']))
+                if it.get('bodyless'):
+                    continue
+                forced = '%s: sub /%s/ matched nothing in %s (lost anchor)' % (it['file'], pat, it['name'])
+                self.degraded[dkey] = forced
+                continue
             log.append('sub /%s/ => %s (%d)' % (pat, rep, n))
             text = t2
+        if forced and not it.get('bodyless'):
+            it = dict(it, bodyless=True)
+            log.append('DEGRADED to signature + contract only: ' + forced)
+        else:
+            forced = None
         # recompute body_open after subs
         mask = code_mask(text)
         d = 0
@@ -635,7 +663,7 @@ class Weaver:
                         self.out.append(['', [(ptxt, porigin)], porigin])
         self.funcs.append(dict(kind='fn', name=(it['rename'] or it['name']), header=header, file=it['file'], probe_idx=probe_idx,
                                lines=[r['line_first'], r['line_last']], sha256=r['sha256'],
-                               obligations=it['obligations'], rewrites=log, mode=self.mode,
+                               obligations=it['obligations'], rewrites=log, mode=self.mode, degraded=forced, orig_header=it['header'], orig_name=it['name'],
                                spec=os.path.basename(it['spec']), spec_section=sec_used,
                                n_clauses=sum(1 for l in spec_lines if l.strip() and not l.strip().startswith('//'))))
         if probe_idx is not None:
@@ -686,11 +714,16 @@ class Weaver:
         return '\n'.join(lines) + '\n', lmap
 
 
-def weave_all(repo, spec_files, prelude, outdir, modes=('A', 'B')):
+def weave_all(repo, spec_files, prelude, outdir, modes=('A', 'B'), degraded=None):
     os.makedirs(outdir, exist_ok=True)
     res = {}
+    degraded = degraded if degraded is not None else {}
+    # first pass finds lost anchors (any mode); the files written are those of the second pass, in which
+    # every mode sees the same set of degraded functions
     for mode in modes:
-        w = Weaver(repo, spec_files, prelude, mode)
+        Weaver(repo, spec_files, prelude, mode, degraded).weave()
+    for mode in modes:
+        w = Weaver(repo, spec_files, prelude, mode, degraded)
         text, lmap = w.weave()
         path = os.path.join(outdir, 'x86_64_%s.rs' % mode)
         with open(path, 'w') as f:
